@@ -109,7 +109,8 @@ def _recipes(e):
         args = [rec(a) for a in x.args]
         if isinstance(x, sp.Function) or x.is_Function:
             fname = x.func.__name__
-            if fname in ("np.array", "np.asarray", "numpy.array") and len(args) >= 1:
+            if fname.split("{")[0] in ("np.array", "np.asarray", "numpy.array", "np.asanyarray", "np.asfarray") and len(args) >= 1:
+                # (with or without dtype= / copy=: as a real number the array is its argument)
                 return args[0]
             if fname == "getattr" and len(args) in (2, 3) and sp.sstr(args[0]) == "self":
                 return S("self." + sp.sstr(args[1]).strip("'\""))
@@ -255,13 +256,21 @@ def anatomy(idx, name) -> Anatomy:
                     pass
                 continue
             # an `if` whose branches consist of in-place stores only: conditional overrides
-            only_stores = all(isinstance(s, ast.Assign) and isinstance(s.targets[0], ast.Subscript) for s in st.body + st.orelse)
-            if only_stores and (st.body or st.orelse):
-                c = tx.cond(st.test)
-                for s in st.body:
-                    _record_store(an, tx, s, c)
-                for s in st.orelse:
-                    _record_store(an, tx, s, symx.c_not(c))
+            # (an if / elif chain of them as well: each store is recorded under the conjunction of the tests that lead to it)
+            def only_stores(stmts):
+                return all((isinstance(s, ast.Assign) and isinstance(s.targets[0], ast.Subscript)) or
+                           (isinstance(s, ast.If) and only_stores(s.body) and only_stores(s.orelse)) or isinstance(s, ast.Pass) for s in stmts)
+
+            def record(stmts, cond):
+                for s in stmts:
+                    if isinstance(s, ast.Assign):
+                        _record_store(an, tx, s, cond)
+                    elif isinstance(s, ast.If):
+                        c_ = tx.cond(s.test)
+                        record(s.body, symx.c_and(cond, c_) if cond is not True else c_)
+                        record(s.orelse, symx.c_and(cond, symx.c_not(c_)) if cond is not True else symx.c_not(c_))
+            if only_stores([st]) and (st.body or st.orelse):
+                record([st], True)
                 continue
             r = tx.block([st])
             if r is not None:
@@ -269,6 +278,11 @@ def anatomy(idx, name) -> Anatomy:
             continue
         from .npflow import _is_validation_loop
         if _is_validation_loop(st):
+            continue
+        if isinstance(st, ast.AugAssign) and isinstance(st.target, ast.Name):
+            # x += g  is, for the value computed, x = x + g (that it may also write into the caller's array is the business of
+            # the no-input-mutation rule, C12.R7)
+            r = tx.block([st])
             continue
         raise AnalysisError(f"{name}: statement {type(st).__name__} at line {st.lineno} outside the dialect")
     # def-use bookkeeping for "computed from the final statistic" (C11.R3)
